@@ -874,9 +874,10 @@ pub fn frame_check(c: &FrameCase, ctx: &mut CaseCtx) -> Result<(), Fail> {
     };
     let cfg = CodecCfg { max_frame_length: max, ..big };
     let codec = cfg.build();
-    // documented: v1 rejects when the serialized payload exceeds the maximum, v2 when
-    // flags + payload (as sent) exceed it
-    let should_fit = if c.v2 { content_len <= max } else { ser.len() <= max };
+    // documented: v1 rejects when the serialized payload exceeds the maximum, v2 when the
+    // serialized message or flags + payload (as sent) exceed it (the receiving side applies the
+    // limit to the decompressed message, so a frame that fits may carry a message that does not)
+    let should_fit = if c.v2 { content_len <= max && ser.len() <= max } else { ser.len() <= max };
     let enc = oracle::encode_frame(&codec, c.v2, &msg);
     let frame = match (enc, should_fit) {
         (Ok(f), true) => f,
